@@ -13,8 +13,12 @@ NOTE = ("Trusted base: Go type checker, go/cfg, go/ssa and VTA of golang.org/x/t
 CLAIMED = {
  "C06": ("4 (C06)", "custom static analysis: SSA store/map-update/element-store enumeration with inter-procedural writes-through-parameter summaries, copy-obligation check of Statement.clone/getInstance, go/cfg guard facts with merge implications for Session, alias check of append/element stores in MergeClause/Build",
    "Static, all-methods/all-sites: no exported *DB method writes through its receiver (directly or via a callee); Statement.clone carries every per-chain field (maps deep, in-place-extended slices exact-length); getInstance keeps pool/context/SkipHooks with a fresh Clauses map; Session mutates a statement only after replacing it by a clone; MergeClause never appends onto or stores into a slice it did not create; Build/NegationBuild never store into slices reachable from receiver/parameters; Execute/Update/Count/AfterQuery reset or restore temporary state. Found and fixed three genuine upstream defects (known_findings.json). Necessary conditions only: equality of SQL/Vars with an isolated replay is not decided."),
+ "C07": ("4 (C07)", "custom static analysis: go/cfg event-fact dominance on the schema cache protocol, lock-set data-flow (foreign relation map, statement cache), SSA who-writes for globals and callback registry, C06 immutability rules, loop-iteration path enumeration for the scan-value pool typestate",
+   "Static, narrow: decides the synchronisation protocols the code relies on - wait-before-return / LoadOrStore-after-defer-close in the schema cache, lock held for writes to another schema's relation map, no unsynchronised package-level state, callback registry written only by registration code, no writes into memory shared by all chains of a handle (C06 rules), Get/Put typestate of pooled scan values, and the C14 lock rules. General data-race freedom and equality with a serial run are NOT decided."),
  "C09": ("4 (C09)", "custom static analysis: go/cfg guard-fact dominance with call-induced kills + symbolic path enumeration of the guard function + sibling check of all WHERE-adding sites",
    "Static, all-paths: every UPDATE/DELETE driver call is dominated by the missing-WHERE guard and by an Error == nil test made after it; path enumeration over the guard shows it raises ErrMissingWhereClause on some path and that every non-raising path carries AllowGlobalUpdate, an earlier error, or 'WHERE present and (soft-delete marker absent or >1 expressions)'; every WHERE clause added from user conditions or model keys is guarded by non-emptiness / non-zero key and BuildCondition yields nothing for empty input; the soft-delete filter is always paired with the marker the guard reads. Necessary conditions only: whether a user condition is effective at run time is not decided."),
+ "C14": ("4 (C14)", "custom static analysis: lock-set data-flow on go/cfg (held/deferred states, joins), lock-state requirements for map accesses / blocking operations, event-fact dominance and must-pass on prepare, sibling check of the ErrBadConn arms and transaction wrappers",
+   "Static, all-paths: Mux acquisitions are released exactly once on every path and never nested; no receive or driver call happens under the lock; every access to a Stmts map/field holds the lock (found and fixed the unlocked read in Session); the in-progress entry protocol of prepare (nil-map guard, deferred close on every exit after insertion, failure recorded and evicted, cache hits wait and check prepareErr); all four ErrBadConn arms evict and close; Close/Reset close entries after preparation and replace the map; transaction wrappers run only through Tx.StmtContext on the same cache. Linearizability, liveness of database/sql and the Session(PrepareStmt) generation split are NOT decided."),
  "C16": ("4 (C16)", "custom static analysis: copy-obligation check (attrs/assigns), SSA static call-closure reachability to pipeline accessors, symbolic path enumeration of FirstOrCreate, go/cfg guard facts on Save",
    "Static, all-paths: attrs/assigns survive every statement derivation (clone) and are stored on the derived instance; FirstOrInit's static call closure in package gorm reaches only the query pipeline, whose executors issue only query-type driver calls; every path through FirstOrCreate performs at most one write, Create only when the lookup matched nothing and did not fail, Updates only for a found record with Assign values; Save's insert fallback is an OnConflict{UpdateAll} upsert guarded by no-error/no-rows/!DryRun/no-selection. Found and fixed the upstream defect that Session/WithContext dropped Attrs/Assign. Convergence of table contents is not decided."),
  "C18": ("4 (C18)", "custom static analysis: SSA backward value-origin of every driver-call context argument with recursive caller check, taint of context.Background/TODO results, who-writes Statement.Context, Session-literal check",
